@@ -420,6 +420,7 @@ More == <<
 \* ---------------------------------------------------------------- heredoc / nowdoc, inline HTML
 
 HdText == Nd("ScalarEncapsedStringPart", [EncapsedStrTkn |-> TkG("HDTEXT", "LR"), Value |-> Vl("EncapsedStrTkn")])
+NdText == Nd("ScalarEncapsedStringPart", [EncapsedStrTkn |-> TkG("NDTEXT", "LR"), Value |-> Vl("EncapsedStrTkn")])
 HdTextIndent == Nd("ScalarEncapsedStringPart", [EncapsedStrTkn |-> TkG("HDTEXT_INDENT", "LR"), Value |-> Vl("EncapsedStrTkn")])
 Heredoc(start, parts) == Nd("ScalarHeredoc", [OpenHeredocTkn |-> TkG(start, "R"), Parts |-> Sq(parts), CloseHeredocTkn |-> TkG("HEREDOC_END", "LR")])
 HeredocEmpty(start) == Nd("ScalarHeredoc", [OpenHeredocTkn |-> TkG(start, "R"), CloseHeredocTkn |-> TkG("HEREDOC_END", "LR")])
@@ -432,7 +433,7 @@ Heredocs == <<
   EchoHd("heredoc/var", "both", Heredoc("HEREDOC_START", <<HdText, StrVar, HdText>>)),
   EchoHd("heredoc/varfirst", "both", Heredoc("HEREDOC_START", <<StrVar, HdText>>)),
   EchoHd("heredoc/empty", "both", HeredocEmpty("HEREDOC_START")),
-  EchoHd("nowdoc/text", "both", Heredoc("NOWDOC_START", <<HdText>>)),
+  EchoHd("nowdoc/text", "both", Heredoc("NOWDOC_START", <<NdText>>)),
   EchoHd("nowdoc/empty", "both", HeredocEmpty("NOWDOC_START")),
   \* flexible heredoc (>= 7.3): indented closing label (the indentation stays in the last text part), heredoc inside an argument list
   EchoHd("heredoc/indented", "73", Heredoc("HEREDOC_START", <<HdTextIndent>>)),
